@@ -1,5 +1,6 @@
 """C08 -- counts are added, never overwritten: the counting blocks of binarize_rule and extract as block contracts."""
 from contracts.counts import lemma_counts
+from contracts import extract_blocks as xb
 
 VERIFY = []
 TRUSTED = ["counting blocks are located by AST pattern in the real source; dict keys are opaque values"]
@@ -11,4 +12,5 @@ def build(reg):
 
 
 LEMMAS = {"counts.binarize_rule": lemma_counts("trees.grammar.binarize_rule", 4),
-          "counts.extract": lemma_counts("trees.grammar.extract", 1)}
+          "counts.extract": lemma_counts("trees.grammar.extract", 1),
+          "counts.lexicon": xb.lemma_lexicon}
